@@ -2303,4 +2303,14 @@ M("t14-quiet-position-lookup", "C17", "quiet", "src/check.rs",
   """                    match fields.iter().position(|(name, _)| name == field_name) {
                         Some(i) => row.push(fields[i].1.clone()),
                         None => {""", "behaviour-preserving: pattern field looked up by position of the equal name")
+REVERT("revert-type-definition-checks", "C17", "fire T16", "e5f9d9e", "pre-fix tree: duplicated struct-definition fields and self-containing types accepted")
+M("t16-recursion-reported-late", "C17", "fire T16", "src/check.rs",
+  """        if !recursive_type_defs.is_empty() {
+            // (the checks of the function bodies would not terminate for such types)
+            errors.extend(recursive_type_defs);
+            let mut errors: Vec<TypeError> = errors.into_iter().flatten().collect();
+            errors.sort();
+            return Err(errors);
+        }""",
+  """        errors.extend(recursive_type_defs);""", "self-containing types are only reported at the end: the function bodies are checked first (does not terminate)")
 
